@@ -232,7 +232,9 @@ class EmbeddedGate(ComposedGate):
             M = np.zeros((self.dim, self.dim), dtype=np.complex128)
             self._map_matrix(g, M)
             G_embed.append(M)
-        return np.array(G_embed, dtype=np.complex128)
+        return np.array(G_embed, dtype=np.complex128).reshape(
+            (len(G_embed), self.dim, self.dim),
+        )
 
     def get_unitary_and_grad(
         self,
@@ -255,7 +257,9 @@ class EmbeddedGate(ComposedGate):
 
         return (
             UnitaryMatrix(U_embed, self.radixes, False),
-            np.array(G_embed, dtype=np.complex128),
+            np.array(G_embed, dtype=np.complex128).reshape(
+                (len(G_embed), self.dim, self.dim),
+            ),
         )
 
     def __eq__(self, other: object) -> bool:
